@@ -87,6 +87,39 @@ theorem runPM_iteM {β : Type} (wi : Nat) (c : Bool) (t e : PM β) (d : β) (w :
     | error e => rfl
     | ok a => simp only [runPM_bind, runPM_blockM, Bool.not_true, Bool.false_eq_true, if_false, runPM_pure]
 
+theorem runPM_loopM {σ : Type} (wi : Nat) (sample : σ) (fuel : Nat) (init : σ) (body : σ → PM (σ × Bool)) (w : World) :
+    runPM wi (loopM sample fuel init body) w = loopRun (fun st w' => runPM wi (body st) w') fuel init w := rfl
+
+/-- A loop whose body never touches the world and never fails leaves the world alone. -/
+theorem loopRun_pure {σ : Type} (step : σ → World → World × Except WErr (σ × Bool))
+    (hstep : ∀ st w, ∃ r, step st w = (w, .ok r)) (n : Nat) (st : σ) (w : World) :
+    ∃ st', loopRun step n st w = (w, .ok st') := by
+  induction n generalizing st with
+  | zero => exact ⟨st, rfl⟩
+  | succ n ih =>
+    obtain ⟨r, hr⟩ := hstep st w
+    unfold loopRun
+    rw [hr]
+    obtain ⟨st', c⟩ := r
+    cases c
+    · exact ⟨st', rfl⟩
+    · exact ih st'
+
+theorem runPM_forEachM_pure {X : Type} (wi : Nat) (sample : X) (xs : List X) (body : X → PM Unit)
+    (hb : ∀ x w, runPM wi (body x) w = (w, .ok ())) (w : World) :
+    runPM wi (forEachM sample xs body) w = (w, .ok ()) := by
+  unfold forEachM
+  rw [runPM_bind, runPM_loopM]
+  obtain ⟨st', h⟩ := loopRun_pure (fun st w' => runPM wi (forEachStep body st) w') (by
+        intro st w'
+        cases st with
+        | nil => exact ⟨_, rfl⟩
+        | cons x rest =>
+          refine ⟨(rest, !rest.isEmpty), ?_⟩
+          show runPM wi (body x >>= fun _ => pure (rest, !rest.isEmpty)) w' = _
+          rw [runPM_bind, hb]; rfl) xs.length xs w
+  rw [h]; rfl
+
 /-- `cTry`: a client call whose error is the wallet's error. -/
 theorem runPM_cTry {β : Type} (wi : Nat) (e : Eff (CRes β)) (w : World) :
     runPM wi (cTry e) w =
